@@ -221,12 +221,12 @@ theorem fromStr_fresh {ocf base st hp} (hl : LInv ocf base hp (fun _ => 0)) (rf 
 /-- `Repr::with_capacity` into a fresh handle: an empty string -/
 theorem withCapacity_fresh {ocf base st hp} (hl : LInv ocf base hp (fun _ => 0)) (rf : Refuse) (n : Nat) :
     (∃ hp1, withCapacity rf hp n = (none, hp1) ∧ hp1.slots = hp.slots) ∨
-    (∃ hp1 r, withCapacity rf hp n = (some r, hp1) ∧ Good ocf base st hp1 r [] ∧ n ≤ capOf hp1 r) := by
+    (∃ hp1 r, withCapacity rf hp n = (some r, hp1) ∧ Good ocf base st hp1 r [] ∧ n ≤ capOf hp1 r ∧ Unique hp1 r) := by
   have h16 := Tie.maxInline_eq
   unfold withCapacity
   by_cases hn : n ≤ MAX_INLINE
   · rw [if_pos hn]; right
-    exact ⟨hp, _, rfl, good_inline_fresh hl [] valid_nil (by simp), by simp [capOf]; omega⟩
+    exact ⟨hp, _, rfl, good_inline_fresh hl [] valid_nil (by simp), by simp [capOf]; omega, trivial⟩
   · rw [if_neg hn]
     unfold heapWithCapacity
     by_cases hc : capOk n = true
@@ -234,7 +234,7 @@ theorem withCapacity_fresh {ocf base st hp} (hl : LInv ocf base hp (fun _ => 0))
       rcases good_alloc_fresh (st := st) hl rf n [] valid_nil ((capOk_iff _).1 hc) (by simp) with
         ⟨hp1, he, hs⟩ | ⟨hp1, he, g, hg⟩
       · left; rw [he]; exact ⟨hp1, rfl, hs⟩
-      · right; rw [he]; exact ⟨hp1, _, rfl, g, by simp [capOf, hg]⟩
+      · right; rw [he]; exact ⟨hp1, _, rfl, g, by simp [capOf, hg], ⟨_, hg, rfl⟩⟩
     · rw [if_neg hc]; left; exact ⟨hp, rfl, rfl⟩
 
 end LS
